@@ -124,6 +124,25 @@ def _on_line_global(code, line):
         _SLOW(code, line)
 
 
+_PREINSTALLED = None     # module names instrumented by preinstall_monitor()
+
+
+def preinstall_monitor():
+    """Called once by the pristine server: switch on LINE events for every py_ecc
+    code object (no callback is registered, the server executes no py_ecc code).
+    Forked children inherit the instrumentation and only have to register their
+    callback, which saves a few milliseconds in every one of the tens of
+    thousands of forks of a check."""
+    global _PREINSTALLED
+    pyecc_dir()
+    mon = sys.monitoring
+    if mon.get_tool(TOOL) is None:
+        mon.use_tool_id(TOOL, "py_ecc-sim")
+    for c in all_pyecc_code():
+        mon.set_local_events(TOOL, c, E.LINE)
+    _PREINSTALLED = tuple(C.pyecc_modules())
+
+
 def install_monitor(slow, global_mode=False):
     global _SLOW
     _SLOW = slow
@@ -136,8 +155,9 @@ def install_monitor(slow, global_mode=False):
         mon.set_events(TOOL, E.LINE)
     else:
         mon.register_callback(TOOL, E.LINE, _on_line)
-        for c in all_pyecc_code():
-            mon.set_local_events(TOOL, c, E.LINE)
+        if _PREINSTALLED is None or _PREINSTALLED != tuple(C.pyecc_modules()):
+            for c in all_pyecc_code():
+                mon.set_local_events(TOOL, c, E.LINE)
 
 
 def refresh_local_monitor():
@@ -615,7 +635,10 @@ class Sim:
             sys.setrecursionlimit(int(knobs["recursion_limit_after_import"]))
         self.base_rlimit = sys.getrecursionlimit()
         lockseam.SIM = self
-        install_monitor(self.slow, global_mode=(spec.get("monitor") == "global"))
+        if spec.get("monitor") != "off":
+            # ("off": long single-caller soak histories run unmonitored - no
+            # pre-emption or fault is planned in them, and LINE events triple the cost)
+            install_monitor(self.slow, global_mode=(spec.get("monitor") == "global"))
         self.interp0 = C.interp_state()
         threading.stack_size(64 * 1024 * 1024)
         prelude = spec.get("prelude") or []
